@@ -272,6 +272,9 @@ def sdSetAttr (f : File) (o : Obj) (name : Bytes) (nt : Nat) (count : Int) (val 
   if !f.isOpen then (f, .fail) else
   if nt / DFNT_NATIVE % 2 == 1 then (f, .fail) else
   if !argsOk nt count then (f, .fail) else
+  -- a file opened read-only is refused BEFORE the attribute list is looked up (fix c23f180: for a dimension id the lookup
+  -- would add an empty coordinate variable to the session)
+  if !f.rdwr then (f, .fail) else
   match apFromId f o with
   | (f1, none) => (f1, .fail)
   | (f1, some loc) =>
